@@ -77,16 +77,36 @@ impl<T: Debug + Clone + Ord> BooleanFunction<T> for Bdd<T> {
             panic!("Currently not allowed to have the substituted variable also appear in the substituting BDD value");
         }
 
-        let mut extended_mapping = mapping.clone();
-        let (mut self_lifted, _common_inputs) = self.union_and_extend_n_ary(&mut extended_mapping);
+        // Variables that are not inputs of this function have nothing to replace.
+        let mut extended_mapping = mapping
+            .iter()
+            .filter(|(key, _)| self.inputs.contains(key))
+            .map(|(key, value)| (key.clone(), value.clone()))
+            .collect::<BTreeMap<_, _>>();
+        // A substituted variable stays an input only if some replacement mentions it.
+        let reintroduced = extended_mapping
+            .values()
+            .flat_map(|value| value.inputs.iter().cloned())
+            .collect::<BTreeSet<_>>();
 
-        for (k, v) in extended_mapping.iter() {
-            self_lifted.bdd = self_lifted
-                .bdd
-                .substitute(self_lifted.map_var_outer_to_inner(k).unwrap(), &v.bdd)
-        }
+        let (self_lifted, common_inputs) = self.union_and_extend_n_ary(&mut extended_mapping);
 
-        self_lifted.restrict_and_prune_map(&extended_mapping, &self_lifted)
+        // All replacements are evaluated at the same (original) valuation.
+        let items = extended_mapping
+            .iter()
+            .map(|(k, v)| (self_lifted.map_var_outer_to_inner(k).unwrap(), &v.bdd))
+            .collect::<Vec<_>>();
+        let substituted = substitute_simultaneously(&self_lifted.bdd, &items);
+
+        let final_inputs = common_inputs
+            .iter()
+            .filter(|it| !extended_mapping.contains_key(it) || reintroduced.contains(it))
+            .cloned()
+            .collect::<Vec<_>>();
+        crate::bdd::utils::prune_bdd_variables(
+            &Bdd::new(substituted, common_inputs),
+            &final_inputs,
+        )
     }
 
     fn sat_point(&self) -> Option<BooleanPoint> {
@@ -141,6 +161,25 @@ impl<T: Debug + Clone + Ord> BooleanFunction<T> for Bdd<T> {
         let (self_lifted, other_lifted, _common_inputs) = self.union_and_extend(other);
 
         other_lifted.bdd.imp(&self_lifted.bdd).is_true()
+    }
+}
+
+/// Simultaneous substitution by Shannon expansion over the substituted variables:
+/// `F[x := g, rest] = ite(g, F[x=1][rest], F[x=0][rest])`, every `g` being read at the original valuation.
+fn substitute_simultaneously(
+    bdd: &biodivine_lib_bdd::Bdd,
+    items: &[(BddVariable, &biodivine_lib_bdd::Bdd)],
+) -> biodivine_lib_bdd::Bdd {
+    match items.split_first() {
+        None => bdd.clone(),
+        Some(((var, value), rest)) => {
+            if !bdd.support_set_contains(var) {
+                return substitute_simultaneously(bdd, rest);
+            }
+            let if_true = substitute_simultaneously(&bdd.var_restrict(*var, true), rest);
+            let if_false = substitute_simultaneously(&bdd.var_restrict(*var, false), rest);
+            biodivine_lib_bdd::Bdd::if_then_else(value, &if_true, &if_false)
+        }
     }
 }
 
